@@ -11,6 +11,11 @@ CHECKS = [
      "text": "Bounded symbolic model checking of matrix identities that imply the spectral statements (similarity by a diagonal unitary / by Gamma(R)); universal over force-constant values, bounded over listed geometries, q, G and operations.",
      "design_ref": "DESIGN.md 3/C03",
      "note": REALS + "spectra are not computed: each spectral claim is reduced to a similarity identity; LAPACK outside."},
+    {"id": "C06", "engine": "llsym+symnp",
+     "technique": "symbolic execution of dym_* and transform_dynmat_to_fc IR plus DynmatToForceConstants Python on z3 Reals; LRA round-trip identity; ground-fact evaluation of commensurate points",
+     "text": "Bounded symbolic model checking of the fc -> D(q_comm) -> fc round trip (C serial entry, C use_openmp entry, Python; full and compact) for all periodic, permutation-symmetric force constants on the listed supercells (incl. non-diagonal/non-symmetric matrices), ph2ph preservation of D with the eigensolver stubbed, and concrete ground facts for the commensurate-point generators over a matrix family.",
+     "design_ref": "DESIGN.md 3/C06",
+     "note": REALS + "precondition: index-permutation symmetric input (Hermitisation is by design); commensurate-point facts are evaluated, not solved; NAC interpolation not covered."},
     {"id": "C07", "engine": "llsym+symnp",
      "technique": "symbolic execution of the kernels' LLVM IR and of the Python layer on z3 Reals; LRA queries; replay on compiled code",
      "text": "Bounded symbolic model checking of the real symmetriser code: for each listed supercell every force-constant entry is a solver variable and z3 decides (unsat) that compact==full, sum rules, periodicity, symmetric-input-unchanged, idempotence, transpose and layout round trips hold for all values. Universal over field values, bounded over geometry.",
@@ -18,13 +23,13 @@ CHECKS = [
      "note": REALS + "clang -O0 IR semantics as implemented by engine/llsym.py, validated at start against the compiled code; nanobind itself replaced by a stand-in header."},
 ]
 _NA = "not yet claimed in this revision (check under construction; see DESIGN.md section 3)"
-NOT_APPLICABLE = [{"property_id": "C%02d" % k, "reason": _NA} for k in range(1, 21) if k not in (2, 3, 7)]
+NOT_APPLICABLE = [{"property_id": "C%02d" % k, "reason": _NA} for k in range(1, 21) if k not in (2, 3, 6, 7)]
 for n in NOT_APPLICABLE:
     if n["property_id"] == "C18":
         n["reason"] = "whole-program CLI runs through argparse, file I/O and yaml with string-typed settings: no solver-decidable core (DESIGN.md section 4)"
 ENGINES = [
-    {"name": "llsym", "path": "engine/llsym.py", "serves_properties": ["C02", "C03", "C07"], "kind_free_text": "symbolic interpreter for clang-14 -O0 LLVM IR of c/*.c and c/_phonopy.cpp over z3 Int/Real with bounds/overflow/uninitialised-read obligations"},
-    {"name": "symnp", "path": "engine/symnp.py", "serves_properties": ["C02", "C03", "C07"], "kind_free_text": "phonopy's own numpy code executed natively on object arrays of z3-backed scalars (np proxy per module), decision-replay forking"},
-    {"name": "shim", "path": "engine/shim.py", "serves_properties": ["C02", "C03", "C07"], "kind_free_text": "compiled real C sources + unmodified _phonopy.cpp glue behind a generic ctypes caller: concrete replay target"},
+    {"name": "llsym", "path": "engine/llsym.py", "serves_properties": ["C02", "C03", "C06", "C07"], "kind_free_text": "symbolic interpreter for clang-14 -O0 LLVM IR of c/*.c and c/_phonopy.cpp over z3 Int/Real with bounds/overflow/uninitialised-read obligations"},
+    {"name": "symnp", "path": "engine/symnp.py", "serves_properties": ["C02", "C03", "C06", "C07"], "kind_free_text": "phonopy's own numpy code executed natively on object arrays of z3-backed scalars (np proxy per module), decision-replay forking"},
+    {"name": "shim", "path": "engine/shim.py", "serves_properties": ["C02", "C03", "C06", "C07"], "kind_free_text": "compiled real C sources + unmodified _phonopy.cpp glue behind a generic ctypes caller: concrete replay target"},
 ]
 NOTES = "All checks: bin/check <id> --tier quick|thorough. Exit 0 held/known, 1 reproduced unlisted violation, 3 harness error. Scratch builds live in /verif/.cache (content-hash of /repo/c), the overlay venv in /verif/.venv; both are recreated on demand."
